@@ -640,7 +640,20 @@ namespace Pistache::Http::Header
         tokens_.emplace_back(token);
     }
 
-    void Server::parse(const std::string& token) { tokens_.push_back(token); }
+    void Server::parse(const std::string& data)
+    {
+        // write() joins the product tokens with single spaces: split them again
+        std::string::size_type beg = 0;
+        while (beg <= data.size())
+        {
+            auto end = data.find(' ', beg);
+            if (end == std::string::npos)
+                end = data.size();
+            if (end > beg)
+                tokens_.push_back(data.substr(beg, end - beg));
+            beg = end + 1;
+        }
+    }
 
     void Server::write(std::ostream& os) const
     {
